@@ -107,6 +107,11 @@ theorem followOk_rp (l : Nat) (r : List (Tok α)) : FollowOk l ((.k .rp : Tok α
 theorem followOk_comma (l : Nat) (r : List (Tok α)) : FollowOk l ((.k .comma : Tok α) :: r) :=
   ⟨rfl, fun j hj => by simp [tokOpLevel] at hj⟩
 
+theorem followOk_args (l : Nat) (a : DArgs α) (rest : List (Tok α)) : FollowOk l (a.flat ++ rest) := by
+  cases a with
+  | nil => simpa [DArgs.flat] using followOk_rp l rest
+  | cons d tl => simpa [DArgs.flat] using followOk_comma l (d.flat ++ (tl.flat ++ rest))
+
 theorem followOk_tail {L : Nat} {tl : DTail α} {rest : List (Tok α)} (hw : tl.WF L) (hf : FollowOk L rest) :
     FollowOk (L + 1) (tl.flat ++ rest) := by
   cases tl with
@@ -216,11 +221,68 @@ theorem pFactor_mid3 {n : Nat} {r r1 r2 r3 : List (Tok α)} {a b c : Expr α}
     pFactor (n+1) (.k .mid_ :: .k .lp :: r) = .ok (.mid3 a b c, r3) := by
   rw [pFactor]; simp [unFnOfK, trimFnOfK, requireK_cons, ha, hb, hc, headIs, Tok.isK]
 
+theorem pFactor_fmt {n : Nat} {r r1 r2 r3 : List (Tok α)} {a b c : Expr α} (isE : Bool)
+    (ha : pExpr n r = .ok (a, (.k .comma : Tok α) :: r1))
+    (hb : pExpr n r1 = .ok (b, (.k .comma : Tok α) :: r2))
+    (hc : pExpr n r2 = .ok (c, (.k .rp : Tok α) :: r3)) :
+    pFactor (n+1) (.k (if isE then .str_e_ else .str_f_) :: .k .lp :: r) = .ok (.fmt isE a b c, r3) := by
+  cases isE <;> (simp only [Bool.false_eq_true, if_false, if_true]; rw [pFactor] <;>
+    simp [unFnOfK, trimFnOfK, requireK_cons, ha, hb, hc])
+
 theorem pExpr_of_pLvl0 {ts rest : List (Tok α)} {e : Expr α} {N : Nat}
     (h : ∀ n, n ≥ N → pLvl n 0 ts = .ok (e, rest)) : ∀ n, n ≥ N + 1 → pExpr n ts = .ok (e, rest) := by
   intro n hn
   obtain ⟨m, rfl⟩ : ∃ m, n = m + 1 := ⟨n - 1, by omega⟩
   rw [pExpr_succ]; exact h m (by omega)
+
+
+/-! ### argument lists -/
+
+theorem pArgsTail_rp (n : Nat) (r : List (Tok α)) : pArgsTail (n+1) ((.k .rp : Tok α) :: r) = .ok (.nil, r) := by
+  rw [pArgsTail]; simp [headIs, Tok.isK, requireK]
+
+theorem pArgsTail_comma {n : Nat} {r r1 r2 : List (Tok α)} {e : Expr α} {rest : Args α}
+    (h1 : pExpr n r = .ok (e, r1)) (h2 : pArgsTail n r1 = .ok (rest, r2)) :
+    pArgsTail (n+1) ((.k .comma : Tok α) :: r) = .ok (.cons e rest, r2) := by
+  rw [pArgsTail]; simp [headIs, Tok.isK, h1, h2]
+
+theorem pFactor_varSub {n : Nat} {r r1 r2 : List (Tok α)} {e : Expr α} {rest : Args α} (v : String)
+    (h1 : pExpr n r = .ok (e, r1)) (h2 : pArgsTail n r1 = .ok (rest, r2)) :
+    pFactor (n+1) (.var v :: .k .lp :: r) = .ok (.var v (.cons e rest), r2) := by
+  rw [pFactor]; simp [headIs, Tok.isK, h1, h2]
+
+theorem pFactor_get0 (n : Nat) (r : List (Tok α)) :
+    pFactor (n+1) (.k .get :: .k .lp :: .k .rp :: r) = .ok (.get .nil, r) := by
+  rw [pFactor]; simp [unFnOfK, trimFnOfK, requireK_cons, headIs, Tok.isK]
+
+theorem pFactor_getS0 (n : Nat) (r : List (Tok α)) :
+    pFactor (n+1) (.k .get_ :: .k .lp :: .k .rp :: r) = .ok (.getS .nil, r) := by
+  rw [pFactor]; simp [unFnOfK, trimFnOfK, requireK_cons, headIs, Tok.isK]
+
+theorem pFactor_get {n : Nat} {r r1 r2 : List (Tok α)} {e : Expr α} {rest : Args α}
+    (hrp : headIs r .rp = false) (h1 : pExpr n r = .ok (e, r1)) (h2 : pArgsTail n r1 = .ok (rest, r2)) :
+    pFactor (n+1) (.k .get :: .k .lp :: r) = .ok (.get (.cons e rest), r2) := by
+  rw [pFactor]; simp [unFnOfK, trimFnOfK, requireK_cons, hrp, h1, h2]
+
+theorem pFactor_getS {n : Nat} {r r1 r2 : List (Tok α)} {e : Expr α} {rest : Args α}
+    (hrp : headIs r .rp = false) (h1 : pExpr n r = .ok (e, r1)) (h2 : pArgsTail n r1 = .ok (rest, r2)) :
+    pFactor (n+1) (.k .get_ :: .k .lp :: r) = .ok (.getS (.cons e rest), r2) := by
+  rw [pFactor]; simp [unFnOfK, trimFnOfK, requireK_cons, hrp, h1, h2]
+
+/-- the token string of a derivation never starts with a right parenthesis -/
+theorem flat_head_not_rp : ∀ (d : Deriv α) (rest : List (Tok α)), headIs (d.flat ++ rest) .rp = false
+  | .num _, _ | .str _, _ | .var _, _ | .eol, _ | .eolNotab, _ | .noNewline, _ | .paren _, _
+  | .instr _ _, _ | .pad _ _, _ | .mid2 _ _, _ | .mid3 _ _ _, _ | .varSub _ _ _, _ | .get0, _ | .get _ _, _
+  | .getS0, _ | .getS _ _, _ => by simp [Deriv.flat, headIs, Tok.isK]
+  | .fmt isE _ _ _, _ => by cases isE <;> simp [Deriv.flat, headIs, Tok.isK]
+  | .un f _, _ => by cases f <;> simp [Deriv.flat, headIs, Tok.isK, kOfUn]
+  | .trimf f _, _ => by cases f <;> simp [Deriv.flat, headIs, Tok.isK, kOfTrim]
+  | .up a b, rest => by
+    have := flat_head_not_rp a ((.k .up : Tok α) :: (b.flat ++ rest))
+    simpa [Deriv.flat] using this
+  | .chain _ f r, rest => by
+    have := flat_head_not_rp f (r.flat ++ rest)
+    simpa [Deriv.flat] using this
 
 /-! ### the parser returns the denotation of every well-formed derivation -/
 
@@ -315,6 +377,51 @@ theorem roundtrip_deriv (d : Deriv α) (hw : d.WF) (rest : List (Tok α)) (l : N
     have h2 := pExpr_of_pLvl0 hb m (by omega)
     have h3 := pExpr_of_pLvl0 hc m (by omega)
     simpa [Deriv.flat, Deriv.den] using pFactor_mid3 h1 h2 h3
+  | .fmt isE a b c, hw, _ =>
+    obtain ⟨Nc, hc⟩ := roundtrip_deriv c hw.2.2 ((.k .rp : Tok α) :: rest) 0 (Nat.zero_le _) (followOk_rp 0 rest)
+    obtain ⟨Nb, hb⟩ := roundtrip_deriv b hw.2.1 ((.k .comma : Tok α) :: (c.flat ++ (.k .rp : Tok α) :: rest)) 0
+      (Nat.zero_le _) (followOk_comma 0 _)
+    obtain ⟨Na, ha⟩ := roundtrip_deriv a hw.1
+      ((.k .comma : Tok α) :: (b.flat ++ (.k .comma : Tok α) :: (c.flat ++ (.k .rp : Tok α) :: rest))) 0
+      (Nat.zero_le _) (followOk_comma 0 _)
+    refine ⟨_, of_factor (Na + Nb + Nc + 2) (fun n hn => ?_) l hl6 hf⟩
+    obtain ⟨m, rfl⟩ : ∃ m, n = m + 1 := ⟨n - 1, by omega⟩
+    have h1 := pExpr_of_pLvl0 ha m (by omega)
+    have h2 := pExpr_of_pLvl0 hb m (by omega)
+    have h3 := pExpr_of_pLvl0 hc m (by omega)
+    simpa [Deriv.flat, Deriv.den] using pFactor_fmt isE h1 h2 h3
+  | .varSub v f m, hw, _ =>
+    obtain ⟨Nm, hm⟩ := roundtrip_args m hw.2 rest
+    obtain ⟨Nf, hff⟩ := roundtrip_deriv f hw.1 (m.flat ++ rest) 0 (Nat.zero_le _) (followOk_args 0 m rest)
+    refine ⟨_, of_factor (Nf + Nm + 2) (fun n hn => ?_) l hl6 hf⟩
+    obtain ⟨k, rfl⟩ : ∃ k, n = k + 1 := ⟨n - 1, by omega⟩
+    have h1 := pExpr_of_pLvl0 hff k (by omega)
+    have h2 := hm k (by omega)
+    simpa [Deriv.flat, Deriv.den] using pFactor_varSub v h1 h2
+  | .get0, _, _ =>
+    exact ⟨_, of_factor 1 (fun n hn => by
+      obtain ⟨k, rfl⟩ : ∃ k, n = k + 1 := ⟨n - 1, by omega⟩
+      exact pFactor_get0 k rest) l hl6 hf⟩
+  | .getS0, _, _ =>
+    exact ⟨_, of_factor 1 (fun n hn => by
+      obtain ⟨k, rfl⟩ : ∃ k, n = k + 1 := ⟨n - 1, by omega⟩
+      exact pFactor_getS0 k rest) l hl6 hf⟩
+  | .get f m, hw, _ =>
+    obtain ⟨Nm, hm⟩ := roundtrip_args m hw.2 rest
+    obtain ⟨Nf, hff⟩ := roundtrip_deriv f hw.1 (m.flat ++ rest) 0 (Nat.zero_le _) (followOk_args 0 m rest)
+    refine ⟨_, of_factor (Nf + Nm + 2) (fun n hn => ?_) l hl6 hf⟩
+    obtain ⟨k, rfl⟩ : ∃ k, n = k + 1 := ⟨n - 1, by omega⟩
+    have h1 := pExpr_of_pLvl0 hff k (by omega)
+    have h2 := hm k (by omega)
+    simpa [Deriv.flat, Deriv.den] using pFactor_get (flat_head_not_rp f (m.flat ++ rest)) h1 h2
+  | .getS f m, hw, _ =>
+    obtain ⟨Nm, hm⟩ := roundtrip_args m hw.2 rest
+    obtain ⟨Nf, hff⟩ := roundtrip_deriv f hw.1 (m.flat ++ rest) 0 (Nat.zero_le _) (followOk_args 0 m rest)
+    refine ⟨_, of_factor (Nf + Nm + 2) (fun n hn => ?_) l hl6 hf⟩
+    obtain ⟨k, rfl⟩ : ∃ k, n = k + 1 := ⟨n - 1, by omega⟩
+    have h1 := pExpr_of_pLvl0 hff k (by omega)
+    have h2 := hm k (by omega)
+    simpa [Deriv.flat, Deriv.den] using pFactor_getS (flat_head_not_rp f (m.flat ++ rest)) h1 h2
   | .up a b, hw, hl =>
     have hl5 : l ≤ 5 := hl
     obtain ⟨Nb, hb⟩ := roundtrip_deriv b hw.2.2.2 rest 5 hw.2.2.1 (hf.mono hl5)
@@ -364,6 +471,22 @@ theorem roundtrip_tail (t : DTail α) (L : Nat) (hw : t.WF L) (hL : L ≤ 4) (re
       simp [DTail.flat]
     rw [e1, this]
     simpa [DTail.fold] using ht (.bin op acc d.den) m (by omega)
+
+theorem roundtrip_args (a : DArgs α) (hw : a.WF) (rest : List (Tok α)) :
+    ∃ N, ∀ n, n ≥ N → pArgsTail n (a.flat ++ rest) = .ok (a.den, rest) := by
+  match a, hw with
+  | .nil, _ =>
+    refine ⟨1, fun n hn => ?_⟩
+    obtain ⟨k, rfl⟩ : ∃ k, n = k + 1 := ⟨n - 1, by omega⟩
+    simpa [DArgs.flat, DArgs.den] using pArgsTail_rp k rest
+  | .cons d tl, hw =>
+    obtain ⟨Nt, ht⟩ := roundtrip_args tl hw.2 rest
+    obtain ⟨Nd, hd⟩ := roundtrip_deriv d hw.1 (tl.flat ++ rest) 0 (Nat.zero_le _) (followOk_args 0 tl rest)
+    refine ⟨Nd + Nt + 2, fun n hn => ?_⟩
+    obtain ⟨k, rfl⟩ : ∃ k, n = k + 1 := ⟨n - 1, by omega⟩
+    have h1 := pExpr_of_pLvl0 hd k (by omega)
+    have h2 := ht k (by omega)
+    simpa [DArgs.flat, DArgs.den] using pArgsTail_comma h1 h2
 end
 
 end PhreeqcVerif.Basic
